@@ -186,10 +186,15 @@ def classify(F, fn, input_term=None, domain=None, target=0, expand=True):
     # pieces that assign the same value are one piece (the same arm reached along several input-independent paths,
     # e.g. through the branches of a logging macro; THREAD duplicates the assignment per path)
     merged = []
+
+    def _field_types(v):
+        # N() forgets the declared type of a field projection; two reads at the same index of differently laid out structs
+        # (`(*p32).addr` / `(*p64).addr`) are different values and must stay different pieces
+        return sorted({(x[2], str(x[3]), str(x[4])) for x in _subterms(v) if isinstance(x, tuple) and len(x) > 4 and x[0] == "fld"})
     for (s_, v_, b_) in pieces:
         nv = G.N(v_)
         for j_, (s2, v2, b2) in enumerate(merged):
-            if G.N(v2) == nv:
+            if G.N(v2) == nv and _field_types(v2) == _field_types(v_):
                 merged[j_] = (union(s2, s_), v2, b2)
                 break
         else:
@@ -214,6 +219,23 @@ def classify(F, fn, input_term=None, domain=None, target=0, expand=True):
                     continue
             out.append((s_, v_, b_))
         pieces = out
+    # a piece whose value is still a gated choice on the input (`if x == c { a } else { b }` joined before the assignment)
+    # is the two pieces it stands for
+    for _ in range(8):
+        out = []
+        again = False
+        for (s_, v_, b_) in pieces:
+            sp = _split_ite(v_, input_term, s_, full) if s_ and v_[0] != "diverge" else None
+            if sp is None:
+                out.append((s_, v_, b_))
+            else:
+                again = True
+                for (s2, v2) in sp:
+                    if s2:
+                        out.append((s2, v2, b_))
+        pieces = out
+        if not again:
+            break
     # exclusivity / totality
     cov = ()
     for (s, _, _) in pieces:
@@ -223,6 +245,30 @@ def classify(F, fn, input_term=None, domain=None, target=0, expand=True):
     if minus(full, cov):
         raise Unrecognised("pieces do not cover the domain: missing %s" % fmt(minus(full, cov)))
     return input_term, pieces, tb
+
+
+def _split_ite(v, input_term, dom, full):
+    """first `ite(input CMP const, a, b)` inside v -> [(dom & sat, v[ite:=a]), (dom - sat, v[ite:=b])], else None"""
+    for x in _subterms(v):
+        if not (isinstance(x, tuple) and len(x) == 4 and x[0] == "ite"):
+            continue
+        c = x[1]
+        if not (isinstance(c, tuple) and c and c[0] in ("cmp", "bin") and c[1] in G.CMPS):
+            continue
+        l, r = G.strip(c[2]), G.strip(c[3])
+        op = c[1]
+        if r == input_term and l[0] == "c":
+            l, r, op = r, l, G.SWAP[op]
+        if not (l == input_term and r[0] == "c"):
+            continue
+        k = r[1]
+        INF = full[-1][1]
+        sat = {"Eq": ((k, k),), "Ne": minus(full, ((k, k),)), "Lt": ((0, k - 1),) if k > 0 else (), "Le": ((0, k),),
+               "Gt": ((k + 1, INF),) if k < INF else (), "Ge": ((k, INF),)}[op]
+        tr = inter(dom, norm(sat))
+        fl = minus(dom, tr)
+        return [(tr, _replace(v, x, x[2])), (fl, _replace(v, x, x[3]))]
+    return None
 
 
 def depends_on(t, x):
